@@ -29,6 +29,10 @@ SHARED = [(b'user-agent', b'h2verif/1.0 (long enough to index)'), (b'accept', b'
 
 
 def req(ch, path):
+    if ch.chance(40):
+        # the same as text, with a host name outside ASCII (sent as UTF-8 like any other text value)
+        return [(':method', 'GET'), (':scheme', 'https'), (':authority', 'b\u00fccher.example'),
+                (':path', path.decode('ascii'))] + [ch.pick(SHARED) for _ in range(ch.int(1, 3))]
     return [(b':method', b'GET'), (b':scheme', b'https'), (b':authority', b'example.com'), (b':path', path)] + \
         [ch.pick(SHARED) for _ in range(ch.int(1, 3))]
 
@@ -45,7 +49,7 @@ def break_list(ch, hs, kind):
         hs.append(('x-bad-text', 'v\udcff'))
         return hs, how
     if how == 'dup-pseudo':
-        ps = [h for h in hs if h[0].startswith(b':')]
+        ps = [h for h in hs if h[0][:1] in (b':', ':')]
         hs.insert(len(ps), ps[-1]) if ps else hs.append((b':foo', b'x'))
     elif how == 'forbidden-late':
         hs.append((b'x-new-%d' % ch.int(0, 9), b'fresh-value-to-index-%d' % ch.int(0, 99)))
@@ -53,7 +57,7 @@ def break_list(ch, hs, kind):
     elif how == 'te-late':
         hs.append((b'te', b'deflate'))
     elif how == 'missing-pseudo':
-        ps = [i for i, h in enumerate(hs) if h[0].startswith(b':')]
+        ps = [i for i, h in enumerate(hs) if h[0][:1] in (b':', ':')]
         if ps:
             del hs[ps[-1]]
         hs.append((b'x-new-%d' % ch.int(0, 9), b'another-fresh-value-%d' % ch.int(0, 99)))
@@ -124,6 +128,7 @@ def run_case(data):
     pending_size_change = False
     last_ok_push = None
     last_size = None
+    reserved = set()       # promised streams whose response has not been sent
     ncalls = ch.int(4, 30)
 
     def check_ok(o, hdrs, what):
@@ -168,14 +173,49 @@ def run_case(data):
             upgrade_settings = None
         op = ch.weighted([(5, 'open-ok'), (4, 'open-bad'), (3, 'follow-ok'), (3, 'follow-bad'), (2, 'table-size'),
                           (2, 'push-ok' if not client else 'open-ok'), (2, 'push-bad' if not client else 'open-bad'),
-                          (2, 'other-settings')])
+                          (2, 'other-settings')] + ([(1, 'promised-then-smaller-frames')] if not client else []))
         if upgrade_settings is not None and op in ('table-size', 'other-settings'):
             op = 'follow-ok'
+        if op == 'promised-then-smaller-frames':
+            # a stream is promised while the peer allows large frames, the peer then lowers MAX_FRAME_SIZE, and the
+            # response on the promised stream needs more than one frame of the new size: it is sliced by the new
+            # size (a stale per-stream copy would make the call fail after the block has been encoded)
+            parents = [x for x in live if x % 2 == 1]
+            if not parents or upgrade_settings is not None:
+                continue
+            hi, lo = ch.pick([32768, 65536]), ch.pick([16384, 20000])
+            for v_ in (hi,):
+                s.feed(wire.settings([(wire.S_MAX_FRAME_SIZE, v_)]))
+            pid = next_local
+            next_local += 2
+            hs = req(ch, b'/pushed-early')
+            o = s.call('push_stream', ch.pick(parents), pid, hs)
+            r.step('push_stream while MAX_FRAME_SIZE is', hi, pid, o.brief())
+            if not o.ok:
+                check_raise(o, 'push')
+                continue
+            check_ok(o, hs, 'push')
+            s.feed(wire.settings([(wire.S_MAX_FRAME_SIZE, lo)]))
+            resp = [(b':status', b'200'), ch.pick(SHARED), (b'x-big', b'B' * ch.int(lo + 10, hi - 100))]
+            o = s.call('send_headers', pid, resp)
+            r.step('response on the promised stream after MAX_FRAME_SIZE went down to', lo, o.brief(),
+                   [(f.name, f.length) for f in o.frames])
+            if o.ok:
+                check_ok(o, resp, 'pushed-response')
+                live.append(pid)
+            else:
+                r.violate('C13:valid-block-refused:pushed-response:%s' % o.exc_name, repr(o.exc)[:120])
+                check_raise(o, 'pushed-response')
+            r.labels.add('promised-then-smaller-frames')
+            continue
         if op == 'other-settings':
             # a SETTINGS frame that does not mention the table size leaves a pending size change pending
-            o = s.feed(wire.settings(ch.pick([[], [(wire.S_MAX_CONCURRENT_STREAMS, 100)],
-                                              [(wire.S_INITIAL_WINDOW_SIZE, 70000), (0x4d, 1)]])))
-            r.step('peer SETTINGS without HEADER_TABLE_SIZE', o.brief())
+            other = ch.pick([[], [(wire.S_MAX_CONCURRENT_STREAMS, 100)],
+                             [(wire.S_INITIAL_WINDOW_SIZE, 70000), (0x4d, 1)],
+                             [(wire.S_MAX_FRAME_SIZE, ch.pick([16384, 32768, 20000, 65536]))]])
+            o = s.feed(wire.settings(other))
+            s.note_peer_settings(other)      # the output monitor holds every later frame to the announced size
+            r.step('peer SETTINGS without HEADER_TABLE_SIZE', other, o.brief())
             if pending_size_change and v == last_size:
                 # the same value again is no change: the update that is still owed must still be sent (F35)
                 o = s.feed(wire.settings([(wire.S_HEADER_TABLE_SIZE, v), (wire.S_MAX_CONCURRENT_STREAMS, 99)]))
@@ -301,6 +341,22 @@ def run_case(data):
                 else:
                     check_raise(o, how)
                     raised_before = True
+            elif sid in reserved:
+                # the response on a promised stream, now and then one that needs several frames (sliced by the
+                # peer's MAX_FRAME_SIZE of the moment, whatever it was when the stream was promised)
+                reserved.discard(sid)
+                resp = [(b':status', b'200'), ch.pick(SHARED)]
+                if ch.chance(100):
+                    resp = resp + [(b'x-big', b'B' * ch.pick([16380, 17000, 33000]))]
+                    r.labels.add('multi-frame-block')
+                o = s.call('send_headers', sid, resp)
+                r.step('response on promised stream', sid, resp, o.brief())
+                if o.ok:
+                    check_ok(o, resp, 'pushed-response')
+                    live.append(sid)
+                else:
+                    r.violate('C13:valid-block-refused:pushed-response:%s' % o.exc_name, repr(o.exc)[:120])
+                    check_raise(o, 'pushed-response')
             else:
                 o = s.call('send_headers', sid, tr, end_stream=True)
                 r.step('trailers', sid, tr, o.brief())
@@ -338,6 +394,7 @@ def run_case(data):
             elif o.ok:
                 check_ok(o, hs, 'push')
                 live.append(pid)
+                reserved.add(pid)
                 last_ok_push = pid
             else:
                 check_raise(o, 'push:' + how)
